@@ -160,6 +160,50 @@ func ruleRETRY(c *Checker) {
 		c.decide(bad == "", "RETRY", key, fn.Pos(), "every return outside the quit/ctx cases is preceded by a store of a freshly obtained stream",
 			pr[0]+" can return at "+bad+" without having replaced "+pr[1]+": the caller retries on the dead stream forever")
 	}
+	// ---- (B') client side re-creation: left only after a successful Connect* or on quit ----
+	for _, pr := range [][2]string{{"createSendMailBox", "ConnectSend"}, {"createReceiveMailBox", "ConnectReceive"}} {
+		fn := w.Func("(*mailbox.ClientConn)." + pr[0])
+		key := fmt.Sprintf("ClientConn.%s|leaves only after a successful %s or on quit", pr[0], pr[1])
+		if fn == nil {
+			c.anchorFail("mailbox.ClientConn." + pr[0])
+			continue
+		}
+		exitBodies := map[*ssa.BasicBlock]bool{}
+		var conns []ssa.Value
+		allInstrs(fn, func(in ssa.Instruction) {
+			if sel, ok := in.(*ssa.Select); ok {
+				cases, _ := w.selectCases(sel)
+				for _, scs := range cases {
+					if !scs.IsSend && scs.Body != nil {
+						exitBodies[scs.Body] = true
+					}
+				}
+			}
+			if call, ok := in.(*ssa.Call); ok && call.Common().IsInvoke() && call.Common().Method.Name() == pr[1] {
+				conns = append(conns, call)
+			}
+		})
+		bad := ""
+		allInstrs(fn, func(in ssa.Instruction) {
+			ret, ok := in.(*ssa.Return)
+			if !ok || bad != "" || exitBodies[ret.Block()] {
+				return
+			}
+			okk := hasFact(ret.Block(), func(f Fact) bool {
+				for _, cv := range conns {
+					if factRel(f, isValue(cv), isNilConst) == "==" {
+						return true
+					}
+				}
+				return false
+			})
+			if !okk {
+				bad = w.pos(instrPos(ret))
+			}
+		})
+		c.decide(bad == "" && len(conns) == 1, "RETRY", key, fn.Pos(), "every return outside the quit/ctx cases is under "+pr[1]+"() == nil",
+			pr[0]+" can return at "+bad+" although "+pr[1]+" failed: the caller goes on with an unconnected transport (nil stream), or retries on the dead one forever")
+	}
 	// ---- (C) retry legs of the four callbacks ----
 	type cb struct{ fn, op, recreate string }
 	for _, x := range []cb{
@@ -239,7 +283,7 @@ func ruleRETRY(c *Checker) {
 		c.decide(bad == "" && nLegs > 0, "RETRY", key, instrPos(op), "every path from the error leg back to the operation passes "+x.recreate,
 			"after a failed "+x.op+" the loop can try again without re-creating the stream (leg at "+bad+"): the same dead stream is used forever and neither side completes or fails")
 	}
-	c.floor("RETRY", 10)
+	c.floor("RETRY", 12)
 }
 
 // ruleDUPLEX: the Noise record layer is used full duplex: NoiseGrpcConn.Read and Write only
@@ -497,4 +541,76 @@ func posOf(w *World, b *ssa.BasicBlock) string {
 		}
 	}
 	return "-"
+}
+
+// ruleCallbackLocks: the four relay callbacks that gbn drives from several goroutines (send loop,
+// receive loop - ACKs -, Close - FIN) serialise the relay operation of their direction under a
+// mutex, and the two directions of one connection use different mutexes: a receive that waits for
+// the peer while holding the send side's lock stops this side from sending what the peer waits for.
+func ruleCallbackLocks(c *Checker, rule string) {
+	w := c.w
+	type cb struct{ typ, fn, op string }
+	cbs := []cb{
+		{"ClientConn", "(*mailbox.ClientConn).send", "Send"},
+		{"ClientConn", "(*mailbox.ClientConn).recv", "Recv"},
+		{"ServerConn", "(*mailbox.ServerConn).sendToStream", "Send"},
+		{"ServerConn", "(*mailbox.ServerConn).recvFromStream", "Recv"},
+	}
+	var funcs []*ssa.Function
+	roots := map[*ssa.Function]bool{}
+	for _, x := range cbs {
+		fn := w.Func(x.fn)
+		if fn == nil {
+			c.anchorFail(x.fn)
+			return
+		}
+		funcs = append(funcs, fn)
+		roots[fn] = true
+	}
+	li := w.computeLocks(funcs, roots)
+	held := map[string]map[*types.Var]bool{}
+	for _, x := range cbs {
+		fn := w.Func(x.fn)
+		var ops []*ssa.Call
+		allInstrs(fn, func(in ssa.Instruction) {
+			if call, ok := in.(*ssa.Call); ok && call.Common().IsInvoke() && call.Common().Method.Name() == x.op {
+				ops = append(ops, call)
+			}
+		})
+		short := strings.Replace(strings.TrimPrefix(x.fn, "(*mailbox."), ")", "", 1)
+		set := map[*types.Var]bool{}
+		okk := len(ops) > 0
+		for _, op := range ops {
+			ls := li.At(op)
+			excl := false
+			for f, m := range ls {
+				if m == lockExcl {
+					excl = true
+					set[f] = true
+				}
+			}
+			if !excl {
+				okk = false
+			}
+		}
+		held[x.fn] = set
+		c.decide(okk, rule, short+"|relay "+x.op+" runs under a mutex", fn.Pos(), "held: "+w.lockSetString(func() LockSet {
+			ls := LockSet{}
+			for f := range set {
+				ls[f] = lockExcl
+			}
+			return ls
+		}()), "the relay "+x.op+" in "+short+" is not serialised by a mutex: gbn calls it from several goroutines (data, ACKs, FIN), concurrent writes/reads on one stream or socket are not allowed")
+	}
+	for _, pr := range [][2]int{{0, 1}, {2, 3}} {
+		a, b := cbs[pr[0]], cbs[pr[1]]
+		shared := ""
+		for f := range held[a.fn] {
+			if held[b.fn][f] {
+				shared = f.Name()
+			}
+		}
+		c.decide(shared == "", rule, a.typ+"|send and receive callbacks use different mutexes", token.NoPos, "disjoint locks",
+			"the send and the receive callback of "+a.typ+" both hold "+shared+" across their relay operation: while one waits for the peer the other direction is blocked (the connection is half duplex and can stall)")
+	}
 }
